@@ -24,13 +24,18 @@ SelfC == {"self.tags", "self.v"}
 \* Targets.MatchWalk: a reference from a block to itself is a cycle) - whatever the nesting depth of the cursor.
 DOne == {"d.one", "d.one.tags", "d.one.tags[0]", "d.one.tags[1]"}
 
+\* placement 4: the attribute being edited is at the root of one file; ANOTHER file of the same path holds a block e "blk"
+\* with a count (its block-local name count.index must not be visible here, whatever the byte offsets in the two files)
+EDecl == {"e.blk"}
+
 IsPrefixStr(p, s) == Len(p) <= Len(s) /\ SubSeq(s, 1, Len(p)) = p
 \* x is a proper descendant of d:  d followed by "." or "["
 Descends(x, d) == Len(x) > Len(d) /\ SubSeq(x, 1, Len(d)) = d /\ SubSeq(x, Len(d) + 1, Len(d) + 1) \in {".", "["}
 
 \* declarations visible from the cursor: env = [level, self : BOOLEAN, edited : the address texts of the attribute being edited]
 Visible(env) ==
-  (IF env.level = 3 THEN LocDecl \cup DOne ELSE
+  (IF env.level = 4 THEN LocDecl \cup EDecl ELSE
+   IF env.level = 3 THEN LocDecl \cup DOne ELSE
    IF env.level = 2 THEN LocDecl \cup CDecl \cup (IF env.self THEN SelfC ELSE {})
    ELSE (LocDecl \cup (IF env.level = 1 THEN BDecl ELSE {})) \cup (IF env.level = 1 /\ env.self THEN SelfDecl ELSE {})) \ env.edited
 
